@@ -15,6 +15,7 @@ Not decided: circuits with more than 4 nodes (the worklist is size-generic).
 """
 import itertools
 
+from ..minieval import ModelRaise
 from ..pkgenv import Package
 from ..refmodel import RefBlackBox, RefCircuit, build
 from .c12 import all_digraphs
@@ -191,7 +192,12 @@ def run(chk):
         for flag in (False, True):
             cc = _base()
             r1 = P.call_method(FILE, "Circuit.remove_unloaded", cc, flag)
-            what = edit(cc)
+            try:
+                what = edit(cc)
+            except ModelRaise as e_:
+                chk.ob("C16.H.no-stale-state", f"remove_unloaded::{ename}::inputs={flag}", False, file=FILE, func="Circuit.remove_unloaded", line=fi.node.lineno,
+                       fact={"problem": "the first call removed a node that an output depends on (the follow-up edit is impossible)", "error": str(e_)[:100], "first_call_removed": str(r1)[:100]})
+                continue
             fresh = cc.copy()
             r2 = P.call_method(FILE, "Circuit.remove_unloaded", cc, flag)
             r3 = Package(repo).call_method(FILE, "Circuit.remove_unloaded", fresh, flag)
